@@ -8,6 +8,7 @@ from __future__ import annotations
 
 import ast
 import builtins
+import copy
 import hashlib
 import os
 import pathlib
@@ -335,6 +336,11 @@ class Repo:
                 out.append(fi)
         return out
 
+    def scan_functions(self) -> List[FuncInfo]:
+        """all functions except new private helpers that were inlined at every call site (analysed in context there)"""
+        ab = getattr(self, "absorbed", set())
+        return [fi for fi in self.all_functions() if fi.qualname not in ab]
+
     def digests(self, relpaths: Optional[List[str]] = None) -> Dict[str, str]:
         return {m.relpath: m.sha256[:16] for m in self.modules.values() if relpaths is None or m.relpath in relpaths}
 
@@ -386,3 +392,39 @@ def src(node: ast.AST) -> str:
         return ast.unparse(node)
     except Exception:  # pragma: no cover
         return "<?>"
+
+
+def single_defs(fn: ast.AST) -> Dict[str, ast.expr]:
+    """local names bound exactly once in `fn` by a plain `name = <expr>` (no other binding form): name -> expr.
+    Used to read a test through its named sub-expressions (`count = len(states)` … `count > 2`)."""
+    seen: Dict[str, int] = {}
+    val: Dict[str, ast.expr] = {}
+    for n in walk_no_nested(fn):
+        if isinstance(n, ast.Name) and isinstance(n.ctx, (ast.Store, ast.Del)):
+            seen[n.id] = seen.get(n.id, 0) + 1
+        if isinstance(n, ast.Assign) and len(n.targets) == 1 and isinstance(n.targets[0], ast.Name):
+            val[n.targets[0].id] = n.value
+        elif isinstance(n, ast.Assign) and len(n.targets) == 1 and isinstance(n.targets[0], ast.Tuple) and isinstance(n.value, ast.Tuple) \
+                and len(n.targets[0].elts) == len(n.value.elts):
+            for t, v in zip(n.targets[0].elts, n.value.elts):
+                if isinstance(t, ast.Name):
+                    val[t.id] = v
+    args = getattr(fn, "args", None)
+    params = {a.arg for a in (args.posonlyargs + args.args + args.kwonlyargs)} if args else set()
+    return {k: v for k, v in val.items() if seen.get(k) == 1 and k not in params}
+
+
+def expand_src(fn: ast.AST, node: ast.AST, depth: int = 3) -> str:
+    """source of `node` with once-bound local names replaced by their defining expressions"""
+    defs = single_defs(fn)
+
+    class _S(ast.NodeTransformer):
+        def visit_Name(self, n):
+            if isinstance(n.ctx, ast.Load) and n.id in defs:
+                return copy.deepcopy(defs[n.id])
+            return n
+    cur = copy.deepcopy(node)
+    for _ in range(depth):
+        new = _S().visit(cur)
+        cur = new
+    return src(cur)
